@@ -14,6 +14,7 @@ import itertools
 import re
 
 from mc import cells as C
+from mc import repeat
 from mc.runner import Acc, Report
 
 LEVEL = "model_checking"
@@ -177,6 +178,7 @@ def shard_tokens(args):
 
 def run(ctx):
     rep = Report()
+    repeat.run_into(ctx, rep, "C17")
     for d in ctx.pmap(shard_tokens, [(ctx.tier, ctx.seed, i) for i in range(len(TOKENS2))]):
         rep.merge(d, "extended_colour_tokens")
     acc = Acc(seed=ctx.seed)
